@@ -18,7 +18,7 @@ NONZERO = {"NonZeroU8": "u8", "NonZeroI32": "i32", "NonZeroU64": "u64", "NonZero
 LEAF_PRIMS = ["u8", "i8", "u16", "i32", "u32", "u64", "i64", "usize", "isize", "f32", "f64", "bool", "char", "String", "()",
               "NonZeroU8", "NonZeroI32", "NonZeroU64", "PathBuf", "Ipv4Addr", "IpAddr", "SocketAddr"]
 FIELD_NAMES = ["a", "b", "foo_bar", "fooBar", "x1", "r#type", "value", "kind", "_p", "inner", "opt", "list", "m", "id", "HTTPCode", "v2_x"]
-ODD_RENAMES = ["a-b", "1x", "$x", "with space", "é", "Ünï", "x.y", "class", "_", "a_b_c"]
+ODD_RENAMES = ["a-b", "1x", "$x", "with space", "é", "Ünï", "x.y", "class", "_", "a_b_c", "007", "42", "12345678901234567890"]
 VARIANT_NAMES = ["A", "B", "Cee", "FooBar", "Foo_Bar", "X1", "r#Type", "HTTPServer", "Dd", "Unit", "Tup", "Str"]
 
 
@@ -167,7 +167,10 @@ class Gen:
         if "docs" in allow and r.random() < 0.2:
             a["docs"] = r.choice([[" doc"], [" two", " lines"], [" with `code` and \"quotes\""], [" ünï"]])
             self.tag("field:docs")
-        if "inline" in allow and r.random() < 0.35 and (k == "named" or (k in ("option", "vec") and ty["t"]["k"] == "named")):
+        if "inline" in allow and r.random() < 0.35 and (k == "named" or (k in ("option", "vec") and ty["t"]["k"] == "named")) \
+                and (ty if k == "named" else ty["t"])["id"] not in getattr(self, "defaulted", set()):
+            # (known finding C03-inlined-default: inlining a generic type with defaulted parameters drags the defaults along as imports;
+            # the fixed witnesses of tools/props/c03.py show it, the random programs stay clear of it)
             a["inline"] = True
             self.tag("field:inline(variant)")
         if "as" in allow and r.random() < 0.08 and not a.get("optional"):
@@ -307,6 +310,7 @@ class Gen:
                 else self.enum(f"G{idx}", named, depth=1, generics=["T"])
             if r.random() < 0.4 and g["generics"]:
                 g["generics"][-1]["default"] = r.choice([P("u8"), clean(named[0])])
+                self.defaulted = getattr(self, "defaulted", set()) | {g["name"]}
             items.append(g)
             args1 = [r.choice([P("bool"), P("u64"), clean(named[0]), VEC(P("String"))]) for _ in g["generics"]]
             named.append(dict(N(g["name"], *args1), _obj=(g["kind"] == "struct")))
